@@ -223,3 +223,76 @@ func C09_Deep() {
 		nd.Assert(sameSeq(whole, cat, false), tag+"/items")
 	}
 }
+
+var _ = reg("C09_AbsorbedError", C09_AbsorbedError)
+
+var absorbedPaths = []string{
+	"$ ? ((exists(@.a ? (@ > $missing))) is unknown && @.b == 1)",
+	"$[*] ? ((exists(@.a ? (@ > $missing))) is unknown && @.b > 0)",
+	"$[*] ? ((@.a ? (@ == $missing) == 1) is unknown && @.b > 0)",
+	"$[*] ? ((@.a ? (@ == $missing) == 1) is unknown || @.b > 0)",
+	"$ ? (@.b == 1 && (exists(@.a ? (@ > $missing))) is unknown)",
+	"strict $[*] ? ((@.a == $missing) is unknown).c",
+	"$[*] ? ((@.a[last] == $missing) is unknown && @.a[last] > 0)",
+	"$[*] ? ((exists(@.a ? (@ > $missing))) is unknown) ? (@.b > 0)",
+}
+
+// C09_AbsorbedError: the bindings (@, last, the verbose switch) after a
+// nested construct that ended in a non-suppressible error which `is unknown`
+// then absorbed - the one way evaluation continues after such an error.
+// (That `is unknown` absorbs it is the listed finding of C11; the expected
+// result is the reference evaluator's under that model, or without it.)
+func C09_AbsorbedError() {
+	src := absorbedPaths[nd.Choice(len(absorbedPaths))]
+	if src[0] != 's' {
+		src = modePrefix() + src
+	}
+	leaf := nd.Spec{Kinds: nd.KFloat}
+	mk := func() any {
+		m := map[string]any{}
+		if nd.Choice(2) == 1 {
+			m["a"] = []any{nd.JSON(leaf)}
+		} else {
+			m["a"] = nd.JSON(leaf)
+		}
+		if nd.Choice(2) == 1 {
+			m["b"] = nd.JSON(leaf)
+		}
+		if nd.Choice(2) == 1 {
+			m["c"] = nd.JSON(leaf)
+		}
+		return m
+	}
+	var doc any
+	if nd.Choice(2) == 0 {
+		doc = mk()
+	} else {
+		doc = []any{mk(), mk()}
+	}
+	p := parse(src)
+	got, gerr := p.Query(bg, doc)
+	ge := errClass(gerr)
+	tag := "C09/absorbed-error " + src
+	want, werr, open, _ := refQuery(p.AST, doc, nil)
+	if open {
+		nd.Cover(tag + "/open")
+		return
+	}
+	if ge == werr && (werr != eNone || sameSeq(got, want, false)) {
+		return
+	}
+	w2, e2, open2, _ := refQueryOpt2(p.AST, doc, nil, false, true)
+	if open2 {
+		nd.Cover(tag + "/open")
+		return
+	}
+	if ge == e2 && (e2 != eNone || sameSeq(got, w2, false)) {
+		nd.Assert(false, "C09/is-unknown-swallows-unknown-variable")
+		return
+	}
+	if ge != e2 {
+		nd.Assert(false, tag+"/error-class")
+		return
+	}
+	nd.Assert(false, tag+"/items")
+}
